@@ -107,13 +107,14 @@ func (l *c10Log) check() {
 
 // C10_Events: a node in a prefix state processes a sequence of symbolic events (digits of `seq`:
 // 0 PREPREPARE, 1 PREPARE, 2 COMMIT, 3 VIEW_CHANGE without proof, 4 election timeout, 5 re-delivery of
-// the previous message, 6 well-formed NEW_VIEW for the current or next view with a symbolic block); the outbox invariants are checked after every step. An adversarial message
+// the previous message, 6 well-formed NEW_VIEW for the current or next view with a symbolic block, 7 genuine
+// NEW_VIEW of an older view, 8 late genuine vote for the current view); the outbox invariants are checked after every step. An adversarial message
 // without any influence ends the path (it leaves the state unchanged, so shorter runs cover it).
 func C10_Events() {
 	seq := env.Param("seq")
 	nEvents := env.Param("events")
 	me := env.Param("me")
-	wd := newWorld(me, equalWeights(4))
+	wd := newWorld(me, paramWeights())
 	lg := &c10Log{wd: wd}
 	wd.n.comm.Hook = lg.hook
 	// the start of the term may already have sent a proposal (leader of view 0)
@@ -166,11 +167,38 @@ func C10_Events() {
 			}
 			blk := &stub.Block{H: 1, Tag: env.NondetU8("nv_tag"), ProposalOK: true}
 			raw = wd.net.nvm(ldr, 1, v, votes, blk).ToConsensusRawMessage()
+		case 7:
+			// a delayed but genuine NEW_VIEW of an OLDER view (one or two views back) from that view's leader
+			cur := int(n.m.state.View())
+			back := 1
+			if cur >= 2 {
+				back += env.Choice("nv_views_back", 2)
+			}
+			if cur < back {
+				return
+			}
+			v := primitives.View(cur - back)
+			ldr := int(uint64(v) % 4)
+			if ldr == wd.me {
+				return
+			}
+			var votes []*interfaces.ViewChangeMessage
+			for j := 0; j < 4; j++ {
+				if j != wd.me {
+					votes = append(votes, wd.net.vcm(j, 1, v, nil))
+				}
+			}
+			blk := &stub.Block{H: 1, Tag: env.NondetU8("nv_tag"), ProposalOK: true}
+			raw = wd.net.nvm(ldr, 1, v, votes, blk).ToConsensusRawMessage()
+		case 8:
+			// a late (or re-delivered) genuine proof-less vote of some other member for the node's current view
+			j := othersOf(wd.me)[env.Choice("late_voter", 3)]
+			raw = wd.net.vcm(j, 1, n.m.state.View(), nil).ToConsensusRawMessage()
 		}
 		if raw != nil {
 			n.deliver(raw)
 			prev = raw
-			if !n.influenced(s0) && i < nEvents-1 {
+			if !n.influenced(s0) && i < nEvents-1 && kind <= 6 {
 				return
 			}
 		}
